@@ -20,6 +20,9 @@ def alphabet(tier):
             ops.append(("simrel", 2, a, b, ab))  # max_time = current time + 2
         for due, rev in itertools.product((False, True), repeat=2):
             ops.append(("back", due, rev, ab))
+    for a, b in ((False, False), (True, False)):
+        for k in (1, 2):
+            ops.append(("sim", k, a, b, ()))  # logs kept, max_time possibly below the current time
     ops.append(("simauto", (0, 2)))  # simulate(absence=[0,2], perform_auto_task_while_absence_time=True)
     ops.append(("simauto", (1,)))
     ops.append(("init",))
